@@ -52,7 +52,11 @@ func main() {
 		}
 		for i := 0; i < nStress; i++ {
 			k := genStress(r, millis)
-			k.Batch = i%3 == 1 // every third history goes through a BatchLogger
+			k.Batch = i%3 == 1                // every third history goes through a BatchLogger
+			k.CloseRace = k.Batch && i%6 == 4 // … every sixth closes it while the goroutines are logging
+			if k.CloseRace && k.G < 2 {
+				k.G = 2
+			}
 			fmt.Fprintln(w, emitStress(fmt.Sprintf("c20-z-%d-%d", a.Seed, i), k, st))
 		}
 		st.Emit(w)
